@@ -634,7 +634,30 @@ pub fn main(tier: Tier, replay: Option<String>) -> i32 {
     let alpha = syms(&["1", "0", "5"], &["2", "〇", "一", "三", "十", "百", "千", "万", "億", "兆", ",", ".", "x", ",000"]);
     let bounds = tier.pick(TreeBounds { full_len: 4, ext_len: 7, max_special: 2 }, TreeBounds { full_len: 5, ext_len: 9, max_special: 2 });
     let b = bounds.to_json();
-    jobs.push(job(NumSpace { label: "W-num/numeral-strings".into(), with: with.clone(), without: without.clone(), alpha, bounds }, Strategy::Dfs, Some(tier.pick(50, 3000)), b));
+    jobs.push(job(NumSpace { label: "W-num/numeral-strings".into(), with: with.clone(), without: without.clone(), alpha: alpha.clone(), bounds }, Strategy::Dfs, Some(tier.pick(50, 3000)), b));
+    // the optional setting left out: normalisation is on by default
+    {
+        let mut spec = numeral_spec("W-num-default-setting", false);
+        spec.plugins["pathRewritePlugin"] = json!([{"class": "com.worksap.nlp.sudachi.JoinNumericPlugin"}]);
+        let w = Arc::new(World::build(spec).expect("W-num-default-setting"));
+        let bounds = tier.pick(TreeBounds { full_len: 3, ext_len: 5, max_special: 2 }, TreeBounds { full_len: 4, ext_len: 7, max_special: 2 });
+        let b = bounds.to_json();
+        jobs.push(job(NumSpace { label: "W-num-default-setting/numeral-strings".into(), with: w, without: without.clone(), alpha: alpha.clone(), bounds }, Strategy::Dfs, Some(tier.pick(50, 1500)), b));
+    }
+    // runs of Arabic digits arrive as ONE node: an unknown-word provider groups them (cheaply) and
+    // tags them as numerals, as the shipped configuration does
+    {
+        let grouped = |name: &str, plugin: bool| -> Arc<World> {
+            let mut spec = numeral_spec(name, plugin);
+            spec.unk_def = spec.unk_def.replace("NUMERIC,3,3,12450,", "NUMERIC,3,3,-3000,");
+            spec.plugins["oovProviderPlugin"] = json!([mecab_oov(false), simple_oov(5, 5, 3857, P_SYM, false)]);
+            Arc::new(World::build(spec).unwrap_or_else(|e| panic!("{}: {}", name, e)))
+        };
+        let (w, wo) = (grouped("W-num-grouped-digits", true), grouped("W-num-grouped-digits-plain", false));
+        let bounds = tier.pick(TreeBounds { full_len: 3, ext_len: 6, max_special: 2 }, TreeBounds { full_len: 4, ext_len: 8, max_special: 2 });
+        let b = bounds.to_json();
+        jobs.push(job(NumSpace { label: "W-num-grouped-digits/numeral-strings".into(), with: w, without: wo, alpha: alpha.clone(), bounds }, Strategy::Dfs, Some(tier.pick(50, 1500)), b));
+    }
     // value grid
     let mut cases: Vec<String> = Vec::new();
     let kmax = tier.pick(24, 40);
